@@ -190,6 +190,12 @@ def check_delim(repo, res, fns):
                 res.inst("F-DELIM", f"{f.qualname}:{c.lineno} splits on the given delimiter", ok)
                 if not ok:
                     res.add(mk_finding(PROP, "F-DELIM", f, c, f"{f.qualname} splits lines with `{unparse(c, 40)}` instead of on the delimiter it was given (and on nothing else)", role="split"))
+        # the delimiter that reaches join/split is the caller's: the parameter is never rebound on the way
+        if "delimiter" in f.all_params:
+            rebinds = [st for st in ast.walk(f.node) if isinstance(st, (ast.Assign, ast.AugAssign, ast.AnnAssign)) and any(isinstance(t, ast.Name) and t.id == "delimiter" for tt in (st.targets if isinstance(st, ast.Assign) else [st.target]) for t in ast.walk(tt))]
+            res.inst("F-DELIM", f"{f.qualname} does not rebind `delimiter`", not rebinds)
+            for st in rebinds:
+                res.add(mk_finding(PROP, "F-DELIM", f, st, f"{f.qualname} replaces the delimiter it was given (`{unparse(st, 50)}`); a file written with that delimiter is then split on something else (labels that contain the substitute separator are broken up)", role="rebind"))
     res.floor("join/split sites in the text formats", n, 4)
 
 
